@@ -200,6 +200,13 @@ class FieldData:
           fieldname)
     if renaming_connected:
       if self.__class__.STORAGE_KEY == "name":
+        if gfapy.is_placeholder(value) and self.version == "gfa2" and \
+            ((self._refs or {}).get("paths") or
+             (self._refs or {}).get("sets")):
+          raise gfapy.ValueError(
+            "Line: {}\n".format(str(self))+
+            "The identifier cannot be removed, "+
+            "as groups refer to the line by its identifier")
         previous = self._gfa.line(value)
         if previous is self:
           previous = None
